@@ -50,7 +50,10 @@ Unsure    == [k |-> "unsure", v |-> << >>]
 IsErr(x)    == x.k = "error"
 IsUnsure(x) == x.k = "unsure"
 Bad(x)      == x.k \in {"error", "unsure"}
-ScalarKinds == {"str", "int", "float", "bool", "null", "enum"}
+RegV(name, t) == V("reg", <<name>> \o t)   \* a value of a REGISTERED type (jsonargparse/typing.py:385-412), identified by str(value)
+RegName(v)    == v.v[1]
+RegText(v)    == Tail(v.v)
+ScalarKinds == {"str", "int", "float", "bool", "null", "enum", "reg"}
 SeqKinds    == {"list", "tuple", "set"}
 
 \* a sequence of results -> one result: unsure dominates, then the first error, else the built value
@@ -71,6 +74,7 @@ TTuple(ts)     == T("tuple", ts)
 TTupleE(t)     == T("tuplee", <<t>>)        \* Tuple[t, ...]
 TDict(kt, vt)  == T("dict", <<kt, vt>>)
 TDC(fields)    == T("dc", fields)           \* dataclass: a sequence of <<name text, type, default value>>
+TReg(name)     == T("reg", <<name>>)        \* a registered type whose serializer is str(): "Rpath" pathlib.Path, "Rtd" timedelta, "Ruuid" UUID, "Rcomplex" complex
 LeafC == {"str", "int", "float", "bool", "none"}
 
 UpperCase == <<"A","B","C","D","E","F","G","H","I","J","K","L","M","N","O","P","Q","R","S","T","U","V","W","X","Y","Z">>
@@ -233,6 +237,36 @@ LiteralNonStrTypes(vals) ==                                                     
   (IF "int" \in ks THEN <<TInt>> ELSE << >>) \o (IF "bool" \in ks THEN <<TBool>> ELSE << >>)
   \o (IF "float" \in ks THEN <<TFloat>> ELSE << >>) \o (IF "null" \in ks THEN <<TNone>> ELSE << >>)
 
+\* Registered types (:800-805, jsonargparse/typing.py:385-412): a value of the type passes, anything else goes to the
+\* deserializer (pathlib.Path, timedelta_deserializer, uuid.UUID, complex).  The value is identified by str(value); only
+\* CANONICAL spellings (str(deserializer(t)) = t) are decided here, the rest is Python's business (Unsure).
+HexLow   == Cls(Digits \cup {"a", "b", "c", "d", "e", "f"})
+UuidRe   == Cat(<<HexLow, HexLow, HexLow, HexLow, HexLow, HexLow, HexLow, HexLow, Ch("-"), HexLow, HexLow, HexLow, HexLow, Ch("-"), HexLow, HexLow, HexLow, HexLow, Ch("-"),
+                  HexLow, HexLow, HexLow, HexLow, Ch("-"), HexLow, HexLow, HexLow, HexLow, HexLow, HexLow, HexLow, HexLow, HexLow, HexLow, HexLow, HexLow>>)
+Natural  == Alt(<<Ch("0"), Cat(<<D19, Star(D)>>)>>)
+TdCanon  == Cat(<<Natural, Ch(":"), D05, D, Ch(":"), D05, D>>)                   \* str(timedelta) below one day, whole seconds
+TdLoose  == Cat(<<Plus(D), Ch(":"), Plus(D), Ch(":"), D>>)                       \* typing.py:400, re.match: a prefix is enough
+CplxInt  == Cat(<<Opt(Ch("-")), D19, Star(D)>>)
+CplxCanon == Alt(<<Cat(<<Ch("("), CplxInt, Sign, D19, Star(D), Ch("j"), Ch(")")>>), Cat(<<CplxInt, Ch("j")>>)>>)
+PathCanonical(t) ==
+  /\ t # << >> /\ ~Has(t, "NUL")
+  /\ (Len(t) = 1 \/ t[Len(t)] # "/")
+  /\ \A i \in 1..(Len(t) - 1) : ~(t[i] = "/" /\ t[i + 1] = "/")
+  /\ \A i \in 1..Len(t) : t[i] = "." => ~((i = 1 \/ t[i - 1] = "/") /\ (i = Len(t) \/ t[i + 1] = "/")) \/ Len(t) = 1
+AdaptReg(name, x) ==
+  IF x.k = "reg" /\ RegName(x) = name THEN x
+  ELSE IF x.k # "str" THEN (IF name = "Rcomplex" /\ x.k \in {"int", "float", "bool"} THEN Unsure ELSE ErrV("registered-type"))
+  ELSE CASE name = "Rpath"    -> IF PathCanonical(x.v) THEN RegV(name, x.v) ELSE Unsure
+         [] name = "Rtd"      -> IF FullMatch(TdCanon, x.v) THEN RegV(name, x.v)
+                                 ELSE IF Ends(TdLoose, x.v, 1) # {} THEN Unsure ELSE ErrV("timedelta")
+         [] name = "Ruuid"    -> IF FullMatch(UuidRe, x.v) THEN RegV(name, x.v)
+                                 ELSE IF \E i \in 1..Len(x.v) : x.v[i] \notin Digits \cup {"a","b","c","d","e","f","A","B","C","D","E","F","-","{","}","u","r","n",":","U","R","N"}
+                                      THEN ErrV("uuid") ELSE Unsure
+         [] name = "Rcomplex" -> IF FullMatch(CplxCanon, x.v) THEN RegV(name, x.v)
+                                 ELSE IF \E i \in 1..Len(x.v) : x.v[i] \notin Digits \cup {"+", "-", ".", "e", "E", "j", "J", "(", ")", " ", "_", "i", "n", "f", "a", "I", "N", "F", "A", "t", "y", "T", "Y"}
+                                      THEN ErrV("complex") ELSE Unsure
+         [] OTHER -> Unsure
+
 RECURSIVE Adapt(_, _, _, _, _), LoadThenAdapt(_, _, _), UnionTrial(_, _, _, _, _, _, _), AdaptDC(_, _, _)
 Adapt(t, x, orig, sd, li) ==
   IF Bad(x) THEN x
@@ -270,6 +304,7 @@ Adapt(t, x, orig, sd, li) ==
                   ys == Strict([i \in 1..Len(x.v) |-> Adapt(t.p[2], x.v[i][2], orig, sd, FALSE)])
               IN Lift(ks \o ys, DictV(Strict([i \in 1..Len(x.v) |-> <<ks[i], ys[i]>>])))
     [] t.c = "dc" -> AdaptDC(t, x, sd \/ li)                                     \* :1032-1050
+    [] t.c = "reg" -> AdaptReg(t.p[1], x)                                        \* :800-805
     [] OTHER -> Unsure
 
 \* the trial loop of the Union branch (:834-847) and its `vals` list: the first member that accepts wins; a str member
@@ -337,6 +372,7 @@ SerOk(t, v) ==
     [] t.c \in {"tuplee", "set"} -> v.k \in SeqKinds /\ \A i \in 1..Len(v.v) : SerOk(t.p[1], v.v[i])
     [] t.c = "dict"  -> v.k = "dict" /\ \A i \in 1..Len(v.v) : SerOk(t.p[2], v.v[i][2])
     [] t.c = "dc"    -> v.k = "ns"
+    [] t.c = "reg"   -> TRUE                                                    \* :802-803 serializer = str never raises
     [] OTHER -> FALSE
 Ser(t, v, o) ==
   CASE t.c \in {"str", "int", "bool", "none", "literal"} -> v
@@ -354,6 +390,13 @@ Ser(t, v, o) ==
          LET ks == Strict([i \in 1..Len(v.v) |-> IF t.p[1].c = "int" /\ v.v[i][1].k = "int" THEN Str(v.v[i][1].v) ELSE v.v[i][1]])
              ys == Strict([i \in 1..Len(v.v) |-> Ser(t.p[2], v.v[i][2], o)])
          IN Lift(ys, DictV(Strict([i \in 1..Len(v.v) |-> <<ks[i], ys[i]>>])))
+    [] t.c = "reg"   ->                                                         \* :802-803  registered_type.serializer(val) = str(val)
+         CASE v.k = "reg"  -> Str(RegText(v))
+           [] v.k = "null" -> Str(<<"N", "o", "n", "e">>)                         \* str(None): reached only when the NoneType member was not tried first
+           [] v.k = "str"  -> v
+           [] v.k \in {"int", "float"} -> Str(v.v)
+           [] v.k = "bool" -> Str(IF v.v = TrueText THEN <<"T", "r", "u", "e">> ELSE <<"F", "a", "l", "s", "e">>)
+           [] OTHER -> Unsure
     [] t.c = "dc"    ->                                                         \* :1041  load_value(parser.dump(val, **dump_kwargs))
          LET inner == DumpFields(t.p, v, o) IN
          IF Bad(inner) THEN inner ELSE ThroughText("yaml", inner, o.ideal)      \* a NESTED yaml round trip, whatever the outer format
@@ -403,12 +446,13 @@ SchemaDependent(v) ==
   ELSE IF v.k = "dict" THEN \E n \in 1..Len(v.v) : SchemaDependent(v.v[n][1]) \/ SchemaDependent(v.v[n][2])
   ELSE IF v.k = "ns" THEN \E n \in 1..Len(v.v) : SchemaDependent(v.v[n][2])
   ELSE IF v.k \in {"str", "enum"} THEN DumperTag(v.v) # "str" \/ Deviation(v.v) # "none"
+  ELSE IF v.k = "reg" THEN DumperTag(RegText(v)) # "str" \/ Deviation(RegText(v)) # "none"
   ELSE v.k = "float"
 \* The serialising Enum branch never raises (:809-811), so the Union loop (:836-839) stops at an Enum member for ANY value:
 \* a member of another Enum (or a tuple / set) behind it stays unserialised and the dumper cannot represent it
 RECURSIVE HasUnserialised(_)
 HasUnserialised(x) ==
-  IF x.k \in {"enum", "set", "ns"} THEN TRUE
+  IF x.k \in {"enum", "set", "ns", "reg"} THEN TRUE
   ELSE IF x.k \in {"list", "tuple"} THEN \E i \in 1..Len(x.v) : HasUnserialised(x.v[i])
   ELSE IF x.k = "dict" THEN \E i \in 1..Len(x.v) : HasUnserialised(x.v[i][2])
   ELSE FALSE
